@@ -34,10 +34,15 @@ class Shapes:
         self.prog = prog
         self.cache = {}
         self.impls = {}
+        self.impl_by_ty = {}
         for b in prog.bodies.values():
             im = b.get('impl')
             if b['kind'] == 'fn' and b['item'] == 'serialize' and im and (im.get('trait') or '').endswith('Serialize'):
                 self.impls.setdefault(im['self'], []).append(b)
+                # also by the type of `self`: the `__SerializeWith<'__a>` wrappers the derive writes for
+                # `serialize_with` print a lifetime in the impl header that the type's name does not have
+                if b['argc'] >= 1:
+                    self.impl_by_ty.setdefault(strip_ref(prog, b['locals'][1]), []).append(b)
         self.stack = []
         self.fnstack = []
 
@@ -106,7 +111,7 @@ class Shapes:
         ty = self.prog.types[tyid]
         name = ty.get('name') if ty['k'] == 'adt' else None
         short = name.split('::', 1)[1] if name and name.startswith(('rs1090::', 'jet1090::', 'decode1090::')) else name
-        bodies = self.impls.get(name) or self.impls.get(short) or []
+        bodies = self.impls.get(name) or self.impls.get(short) or self.impl_by_ty.get(tyid) or []
         self.stack.append(key)
         try:
             if bodies:
